@@ -7,6 +7,7 @@ import (
 	"os"
 	"os/exec"
 	"runtime"
+	"strconv"
 	"strings"
 	"sync"
 	"time"
@@ -40,8 +41,35 @@ func Run(prop, tier string) int {
 		return 2
 	}
 	r := ev.New(prop, tier, d.level)
-	d.run(r, tier)
-	return r.Finish()
+	/* A check always ends: if some wait inside it never does (a change to
+	the program that makes a free-running scenario hang where no watchdog
+	was foreseen), what has been found by then is reported at the deadline;
+	with nothing found the check says that it is broken.  The limits are far
+	beyond what the tiers need on a loaded machine (minutes / an hour). */
+	limit := 40 * time.Minute
+	if "thorough" == tier {
+		limit = 6 * time.Hour
+	}
+	if s := os.Getenv("VERIF_MAX_WALL_S"); "" != s {
+		if n, err := strconv.Atoi(s); nil == err && n > 0 {
+			limit = time.Duration(n) * time.Second
+		}
+	}
+	done := make(chan struct{})
+	go func() { defer close(done); d.run(r, tier) }()
+	select {
+	case <-done:
+		return r.Finish()
+	case <-time.After(limit):
+	}
+	r.Exhaustive = false
+	r.Set("ended_by_the_global_deadline", fmt.Sprintf("the check had not finished after %v; reported is what had been found by then", limit))
+	if r.NViolations() > 0 {
+		return r.Finish()
+	}
+	buf := make([]byte, 1<<20)
+	fmt.Fprintf(os.Stderr, "BROKEN: check %s %s did not finish within %v and had found nothing; goroutines:\n%s\n", prop, tier, limit, buf[:runtime.Stack(buf, true)])
+	return 2
 }
 
 // Replay replays a violation artefact.
